@@ -112,6 +112,20 @@ func c17Scenario(seed int64, idx int) (*EvoScenario, int64) {
 		}
 		sc.modular = true
 	}
+	if idx%16 == 13 {
+		// genomes of 40-100 genes in many species whose distances are purely structural: an organism is as far from one
+		// representative as from several others, and ties are decided by the order of the species alone
+		sp := genSpec(g)
+		sp.Inputs, sp.Hidden, sp.Outputs, sp.GeneProb, sp.TraitBase = 6+g.Intn(3), 3+g.Intn(3), 4+g.Intn(3), 0.6, 1
+		sc.Ctor, sc.Start, sc.StartSrc = ctorSpawn, buildGenome(g, sp, 1), "built: 40-100 genes"
+		sc.Opts.MutdiffCoeff, sc.Opts.DisjointCoeff, sc.Opts.ExcessCoeff = 0, 1, 1
+		sc.Opts.CompatThreshold = pick(g, 1.5, 2.5)
+		sc.Opts.MutateAddLinkProb, sc.Opts.MutateAddNodeProb, sc.Opts.MutateOnlyProb = 0.6, 0.3, 0.8
+		sc.Opts.PopSize = 60 + g.Intn(21)
+		sc.Opts.BabiesStolen = 0
+		sc.Epochs = 12 + g.Intn(8)
+		sc.manySpeciesTies = true
+	}
 	if idx%16 == 9 && sc.Ctor == ctorSpawn && sc.Start != nil && len(sc.Start.Genes) > 2 {
 		// a start genome put together by hand whose connection genes are not listed in the order of their innovation numbers
 		ss := snapGenome(sc.Start)
@@ -415,6 +429,10 @@ func runC17(c *Ctx, idx int) {
 	if sc.hugePopulation {
 		c.Count("scenarios.population_of_thousands", 1)
 	}
+	if sc.manySpeciesTies {
+		c.Count("scenarios.large_genomes_in_many_species_at_tied_distances", 1)
+		c.Count(fmt.Sprintf("scenarios.large_genomes_in_many_species_at_tied_distances.species_at_end_%s", c17Bucket(first.species)), 1)
+	}
 	if sc.Ctor == ctorRandom {
 		c.Count("scenarios.random_population", 1)
 	} else {
@@ -626,4 +644,15 @@ func runStuttered(self, tier string, seed int64, idx int) ([]string, string) {
 		return nil, "helper process failed: no output"
 	}
 	return hashes, errText
+}
+
+
+func c17Bucket(n int) string {
+	switch {
+	case n < 8:
+		return "below_8"
+	case n < 20:
+		return "8_to_19"
+	}
+	return "20_and_more"
 }
